@@ -13,9 +13,13 @@ use serde_json::{json, Value};
 use std::cell::RefCell;
 use std::process::Command;
 
-fn top(nhays: u8) -> impl Strategy<Value = TOp> {
+fn top(nhays: u8, flavor: u8) -> BoxedStrategy<TOp> {
     let b = prop::sample::select(vec![b'a', b'b', b'z', 0u8, 0xFF, b' ']);
     let h = 0u8..nhays;
+    if flavor == 2 {
+        // a storm of one-shot free-function calls on short haystacks, every call with its own needle length
+        return (h.clone(), any::<u8>(), any::<u8>(), prop::sample::select(vec![0u8, 0, 1, 2])).prop_map(|(h, n, c, r)| TOp::OneShot(h, n, c & 0xFE, r)).boxed();
+    }
     prop_oneof![
         3 => (b.clone(), h.clone()).prop_map(|(a, h)| TOp::Memchr(a, h)),
         2 => (b.clone(), h.clone()).prop_map(|(a, h)| TOp::Memrchr(a, h)),
@@ -30,6 +34,7 @@ fn top(nhays: u8) -> impl Strategy<Value = TOp> {
         2 => (b.clone(), h.clone(), 0u8..4).prop_map(|(a, h, k)| TOp::HandOff(a, h, k)),
         5 => (h.clone(), any::<u8>(), any::<u8>(), 0u8..3).prop_map(|(h, n, c, r)| TOp::OneShot(h, n, c, r)),
     ]
+    .boxed()
 }
 
 pub fn program(max_threads: usize) -> impl Strategy<Value = Program> {
@@ -37,9 +42,10 @@ pub fn program(max_threads: usize) -> impl Strategy<Value = Program> {
         subgen::needle_spec(),
         prop::collection::vec((prop::collection::vec(subgen::piece(), 1..=6), any::<u64>()), 2..=4),
         2usize..=max_threads,
-        any::<bool>(),
+        0u8..4,
+        prop::sample::select(vec![1u32, 1, 20, 400]),
     )
-        .prop_flat_map(|(spec, hs, nthreads, same_first)| {
+        .prop_flat_map(|(spec, hs, nthreads, flavor, reps)| {
             let needle = subgen::build_needle(&spec);
             let hays: Vec<Vec<u8>> = hs
                 .iter()
@@ -60,9 +66,9 @@ pub fn program(max_threads: usize) -> impl Strategy<Value = Program> {
                 })
                 .collect();
             let nh = hays.len() as u8;
-            (Just(needle), Just(hays), prop::collection::vec(prop::collection::vec(top(nh), 1..=6), nthreads..=nthreads), Just(same_first))
+            (Just(needle), Just(hays), prop::collection::vec(prop::collection::vec(top(nh, flavor), 1..=6), nthreads..=nthreads), Just(flavor == 1), Just(reps))
         })
-        .prop_map(|(needle, hays, mut threads, same_first)| {
+        .prop_map(|(needle, hays, mut threads, same_first, reps)| {
             if same_first {
                 // all threads start with the same dispatched routine
                 let first = threads[0][0].clone();
@@ -70,7 +76,7 @@ pub fn program(max_threads: usize) -> impl Strategy<Value = Program> {
                     t[0] = first.clone();
                 }
             }
-            Program { needle, hays, threads }
+            Program { needle, hays, threads, reps }
         })
 }
 
@@ -87,6 +93,26 @@ fn same_first_routine(p: &Program) -> bool {
     n > 0
 }
 
+/// two different threads issue short-haystack one-shot `memmem::find` calls with needles of different lengths
+fn oneshot_mix(p: &Program) -> bool {
+    if p.needle.is_empty() {
+        return false;
+    }
+    let lens: Vec<Vec<usize>> = p
+        .threads
+        .iter()
+        .map(|t| t.iter().filter_map(|o| match o { TOp::OneShot(_, n, c, r) if c % 2 == 0 && r % 3 == 0 => Some(1 + (*n as usize) % p.needle.len().min(24)), _ => None }).collect())
+        .collect();
+    for i in 0..lens.len() {
+        for j in i + 1..lens.len() {
+            if lens[i].iter().any(|a| lens[j].iter().any(|b| a != b)) {
+                return true;
+            }
+        }
+    }
+    false
+}
+
 pub fn c15(ctx: &Ctx) -> Frag {
     let mut frag = ctx.frag("threads-proptest");
     let mvexec = ctx.rest.iter().position(|a| a == "--mvexec").and_then(|i| ctx.rest.get(i + 1)).cloned();
@@ -97,7 +123,7 @@ pub fn c15(ctx: &Ctx) -> Frag {
             return frag;
         }
     };
-    frag.require(&[">= 2 threads whose first operation is the same dispatched routine"]);
+    frag.require(&[">= 2 threads whose first operation is the same dispatched routine", ">= 2 threads in one-shot memmem::find on short haystacks with needles of different lengths", "operations repeated >= 400 times per thread"]);
     let cases = ctx.n(300, 20_000) as u32;
     let max_threads = if ctx.thorough { 32 } else { 16 };
     let dir = std::env::temp_dir().join(format!("mvthreads-{}-{}", std::process::id(), ctx.shard));
@@ -139,7 +165,17 @@ pub fn c15(ctx: &Ctx) -> Frag {
         };
         if s.failed.is_none() {
             s.frag.evaluations += 1;
-            let nt = same_first_routine(&p);
+            let mut nt = same_first_routine(&p);
+            if oneshot_mix(&p) {
+                s.frag.class(">= 2 threads in one-shot memmem::find on short haystacks with needles of different lengths");
+                if !nt {
+                    s.frag.nontrivial_hashes.insert(mvcore::oracle::fnv(&[text.as_bytes()]));
+                }
+            }
+            if p.reps >= 400 {
+                s.frag.class("operations repeated >= 400 times per thread");
+            }
+            nt = nt || false;
             if nt {
                 s.frag.class(">= 2 threads whose first operation is the same dispatched routine");
                 s.frag.nontrivial_hashes.insert(mvcore::oracle::fnv(&[text.as_bytes()]));
